@@ -258,6 +258,15 @@ func gen(seed uint64, tier string) Scenario {
 		}
 		sc.URL = strings.ReplaceAll(sc.URL, "@", "a") + "?" + q
 	}
+	// a URL with an empty path, with or without a query (real client, play flow; hash-derived
+	// so that no other choice moves)
+	if x := core.HS(seed, "c10.emptypath", "", 0); sc.Kind != "C" && !sc.Record && x%100 < 7 {
+		sc.URL = "rtsp://10.0.0.1:8554"
+		if (x>>8)%2 == 0 {
+			sc.URL += "?" + []string{"a=b", "x", "k=%41&z=1"}[(x>>16)%3]
+		}
+		sc.DescribeOnly = true
+	}
 	switch sc.Kind {
 	case "A":
 		if r.Bool(0.15) {
@@ -366,8 +375,18 @@ func genSteps(r *core.Rand, sc *Scenario) []Step {
 		perturbAt = r.Intn(len(flow))
 	}
 	var steps []Step
+	// pre-emptive Basic: right Basic credentials in the very first request of the connection,
+	// before any challenge (RFC 7617 allows it); hash-derived so that no other choice moves
+	preempt := enabled(sc.Methods, mBasic) && core.HS(sc.Seed, "c10.preempt", "", 0)%100 < 12
 	for i, f := range flow {
-		if i == 0 || r.Bool(0.15) {
+		if i == 0 && preempt {
+			steps = append(steps, Step{Method: f.m, Track: f.t, Cred: "valid", Scheme: mBasic, Preempt: true})
+			if i == perturbAt {
+				perturbAt++
+			}
+			continue
+		}
+		if i == 0 || (i == 1 && preempt) || r.Bool(0.15) {
 			steps = append(steps, Step{Method: f.m, Track: f.t, Cred: "none"})
 		}
 		if i == perturbAt {
